@@ -15,7 +15,7 @@ import numpy as np
 from . import common as C
 
 PID = "C18"
-MYFILES = ["Model/Cnet.v", "Model/CnetRun.v", "Proofs/CnetFacts.v", "Pinned/CnetPinned.v"]
+MYFILES = ["Model/Cnet.v", "Model/CnetRun.v", "Proofs/CnetFacts.v", "Proofs/CnetExamples.v", "Pinned/CnetPinned.v"]
 HEADER = ["From Coq Require Import List ZArith QArith Qcanon.",
           "From DV Require Import Model.Core Model.Clt Model.QcInst Model.Cnet Model.CnetRun.",
           "Import ListNotations. Open Scope Z_scope."]
@@ -64,11 +64,35 @@ def gen_tree_data(rs, m, cols, flip):
     return out
 
 
-def gen_data(rs, tier):
+def gen_context(rs, m, cols, depth):
+    """context-specific dependence: a cut variable selects between two different sub-models
+    (recursively another cut, or a noisy-xor dependency tree)."""
+    k = len(cols)
+    out = np.zeros((m, k), dtype=np.float32)
+    if m == 0:
+        return out
+    c = int(rs.randint(k))
+    out[:, c] = rs.rand(m) < rs.uniform(0.25, 0.75)
+    rest = [j for j in range(k) if j != c]
+    if rest:
+        for val in (0, 1):
+            idx = np.where(out[:, c] == val)[0]
+            if len(idx) == 0:
+                continue
+            if depth > 0 and len(rest) >= 2 and rs.rand() < 0.7:
+                out[np.ix_(idx, rest)] = gen_context(rs, len(idx), rest, depth - 1)
+            else:
+                out[np.ix_(idx, rest)] = gen_tree_data(rs, len(idx), rest, flip=float(rs.choice([0.02, 0.05, 0.1, 0.25])))
+    return out
+
+
+def gen_data(rs, tier, learner="fit"):
     n = int(rs.randint(2, 9))
-    regime = ["mixture", "context", "context", "degenerate", "tiny"][rs.randint(5)]
+    regime = ["mixture", "context", "context", "context2", "context2", "degenerate", "tiny"][rs.randint(7)]
     mmax = 160 if tier == "quick" else 300
     m = int(rs.randint(4, 13)) if regime == "tiny" else int(rs.randint(20, mmax + 1))
+    if learner != "fit" and regime.startswith("context"):
+        m = int(rs.randint(mmax // 2, mmax + 1))     # the score-based learners split only with enough evidence
     if regime in ("mixture", "tiny", "degenerate"):
         k = int(rs.randint(1, 4))
         P = rs.rand(k, n)
@@ -86,28 +110,22 @@ def gen_data(rs, tier):
             else:
                 X[:, rs.randint(n)] = 1.0 - X[:, rs.randint(n)]
     else:
-        # context-specific dependence: a cut variable selects between two different dependency trees
-        c = int(rs.randint(n))
-        X = np.zeros((m, n), dtype=np.float32)
-        X[:, c] = rs.rand(m) < rs.uniform(0.25, 0.75)
-        rest = [j for j in range(n) if j != c]
-        if rest:
-            for val in (0, 1):
-                idx = np.where(X[:, c] == val)[0]
-                if len(idx):
-                    X[np.ix_(idx, rest)] = gen_tree_data(rs, len(idx), rest, flip=float(rs.choice([0.02, 0.1, 0.25])))
+        X = gen_context(rs, m, list(range(n)), 0 if regime == "context" else 2)
     return X, regime
 
 
-def gen_config(rs, X, allow_one_cut):
+def gen_learner(rs):
+    return ["fit", "fit", "bd", "bic"][rs.randint(4)]
+
+
+def gen_config(rs, X, learner, allow_one_cut):
     m, n = X.shape
-    learner = ["fit", "fit", "bd", "bic"][rs.randint(4)]
     cuts = [2, 3, 10] + ([1] if allow_one_cut else [])
     if learner == "fit":
         kw = dict(alpha=float(rs.choice([0.01, 0.1, 0.5, 1.0])),
-                  min_n_samples=int(rs.choice([0, 2, 5, 10, 40, m, m + 5])),
-                  min_n_features=int(rs.choice([1, 1, 1, 2, 3, n])),
-                  min_mean_entropy=float(rs.choice([0.0, 0.01, 0.01, 0.1, 0.4, 5.0])))
+                  min_n_samples=int(rs.choice([0, 2, 5, 5, 10, 10, 20, 40, m, m + 5])),
+                  min_n_features=int(rs.choice([1, 1, 1, 1, 1, 2, 3, n])),
+                  min_mean_entropy=float(rs.choice([0.0, 0.01, 0.01, 0.01, 0.05, 0.1, 0.4, 5.0])))
     elif learner == "bd":
         kw = dict(ess=float(rs.choice([0.005, 0.1, 0.5, 1.0, 2.0, 4.0])), n_cand_cuts=int(rs.choice(cuts)))
     else:
@@ -285,6 +303,7 @@ def main(tier, seed, replay=None):
     cases = []
     dist = dict(learner={}, regime={}, vars={}, cuts={}, depth={}, root_unsplit=0, rows=0, data_rows=[10 ** 9, 0])
     t_impl = time.time()
+    nraised = noracle = 0
     for i in range(ncase + nhand):
         hand = i >= ncase
         info = dict(index=i)
@@ -295,8 +314,9 @@ def main(tier, seed, replay=None):
                 node = rand_cnet(rs, scope)
                 info.update(learner="hand-built", regime="dyadic", scope=scope)
             else:
-                X, regime = gen_data(rs, tier)
-                learner, kw = gen_config(rs, X, allow_one_cut=(one_cut is None))
+                learner = gen_learner(rs)
+                X, regime = gen_data(rs, tier, learner)
+                learner, kw = gen_config(rs, X, learner, allow_one_cut=(one_cut is None))
                 info.update(learner=learner, params=kw, regime=regime, data=X.astype(int).tolist(), clt_seed=seed + i)
                 node = run_learner(learner, kw, X, seed + i)
                 scope = list(range(X.shape[1]))
@@ -310,13 +330,17 @@ def main(tier, seed, replay=None):
             import traceback
             info.update(kind="implementation-raised", error=repr(e), trace=traceback.format_exc()[-1500:],
                         note="learning / evaluating / reading the cutset network failed on this input")
-            rep.violation(info, True)
+            nraised += 1
+            if nraised <= 3:
+                rep.violation(info, True)
             continue
         E = np.where(np.isfinite(LL), np.exp(np.clip(LL, -700, 50)), 0.0)
         st = stats(d)
         orc = direct_oracle(node, scope, R, LL)
         if orc is not None:
-            rep.violation(dict(info, kind="direct-oracle", oracle=orc, object=brief(d)), True)
+            noracle += 1
+            if noracle <= 3:
+                rep.violation(dict(info, kind="direct-oracle", oracle=orc, object=brief(d)), True)
         cases.append(dict(info=info, d=d, hand=hand, E=E, LL=LL, R=R, st=st, n=n, node=node, scope=scope))
         for k, v in (("learner", info["learner"]), ("regime", info["regime"]), ("vars", n), ("cuts", st["cuts"]),
                      ("depth", st["depth"])):
@@ -324,6 +348,8 @@ def main(tier, seed, replay=None):
         dist["root_unsplit"] += int(st["cuts"] == 0 and not hand)
         dist["rows"] += len(R)
     dist["impl_seconds"] = round(time.time() - t_impl, 1)
+    dist["implementation_raised"] = nraised
+    dist["direct_oracle_failures"] = noracle
     rep.cov["input_distribution"] = dist
     # ---- Coq side
     order = sorted(range(len(cases)), key=lambda k: -cases[k]["n"])
@@ -374,7 +400,7 @@ def main(tier, seed, replay=None):
                         rows=[[int(x) for x in r] for r in cs["R"][:3]], impl_loglik=[float(x) for x in cs["LL"][:3]]))
     seen = set()
     for cs, r, code in flagged:
-        if id(cs) in seen or len(seen) >= 5:
+        if id(cs) in seen or len(seen) >= 3:
             continue
         seen.add(id(cs))
         out = dict(cs["info"], kind="model-implementation-disagreement", flags=int(code), object=brief(cs["d"]),
@@ -389,7 +415,7 @@ def main(tier, seed, replay=None):
     if replay:
         print(open(replay).read()[:3000])
     rep.cov["rule"] = ("binary data sets with 2-8 variables and 4-160 (quick) / 4-300 (thorough) rows from four regimes (mixtures of product "
-                       "distributions; context-specific data where a cut variable selects between two noisy-xor dependency trees; degenerate: "
+                       "distributions; context-specific data where a cut variable selects between two noisy-xor dependency trees, nested up to 3 levels; degenerate: "
                        "constant / duplicated / negated columns, identical rows; tiny: 4-12 rows) x learner (fit twice as often, learn_cnet_bd, "
                        "learn_cnet_bic) x thresholds (alpha, min_n_samples incl. 0 and >= rows, min_n_features incl. = n, min_mean_entropy incl. 5.0, "
                        "ess 0.005-4, n_cand_cuts 2/3/10), plus hand-built networks with dyadic parameters over permuted non-contiguous scopes; "
